@@ -24,6 +24,7 @@ VARIABLES cfg, val, old, cur, kt, cap, rej, conv, t, loop, pc, idx, new, metro, 
           early, fin, base, lastAcc, accCur, evals, dl, lastKt, stage, hist, ref,
           moved,   \* size of the last proposal's move in millionths of the configured maximum
                    \* (measured by the harness on the f64 values: a finer scale than Fx)
+          outside, \* number of parameters strictly outside their declared range by exact f64 comparison
           l        \* number of log lines consumed
 
 Undef == -1
@@ -40,7 +41,7 @@ O == INSTANCE Optimiser WITH Fx <- TFx, MoveCap <- TMoveCap, AdaptOK <- TAdaptOK
         Configs <- {}, Values <- {}, Scores <- {}
 
 ovars == O!vars
-tvars == <<ovars, moved, l>>
+tvars == <<ovars, moved, outside, l>>
 
 \* program counter implied by what the implementation did next
 PcBefore(k) ==
@@ -79,7 +80,7 @@ Init ==
   /\ rej = 0 /\ conv = 0 /\ t = 0 /\ loop = 1 /\ pc = "new"
   /\ idx = 1 /\ new = Undef /\ metro = "no" /\ lstart = Undef /\ imp = "na"
   /\ early = FALSE /\ fin = {} /\ accCur = Undef /\ evals = 0 /\ dl = {}
-  /\ lastKt = O!KtOf(e.cfg) /\ stage = 1 /\ hist = <<>> /\ ref = <<>> /\ moved = 0
+  /\ lastKt = O!KtOf(e.cfg) /\ stage = 1 /\ hist = <<>> /\ ref = <<>> /\ moved = 0 /\ outside = e.out
 
 Start(e) ==
   /\ e.ev = "start"
@@ -175,6 +176,7 @@ Next ==
   /\ l < Len(Log)
   /\ l' = l + 1
   /\ moved' = IF Log[l + 1].ev = "propose" THEN Log[l + 1].rel ELSE moved
+  /\ outside' = IF Log[l + 1].ev \in {"start", "propose", "eval", "decide", "final"} THEN Log[l + 1].out ELSE outside
   /\ LET e == Log[l + 1] IN
        Start(e) \/ Begin(e) \/ Propose(e) \/ Eval(e) \/ Draw(e) \/ Decide(e) \/ EndLoop(e)
        \/ Final(e) \/ Observe(e) \/ Panic(e)
@@ -190,6 +192,8 @@ C06Done == O!C06Done
 C07 == O!C07
 C08 == O!C08
 C08Range == cfg.checkRange => O!C08Range
+\* the same by exact comparison of the f64 values with the declared bounds (no fixed-point slack)
+C08Exact == cfg.checkRange => outside = 0
 C08Done == O!C08Done
 C04Frozen == cfg.checkRange => O!C04Frozen
 C18 == O!C18
